@@ -111,6 +111,7 @@ class LoaderFault(object):
             if n != self.k:
                 return
             self.path = path
+            self.victim = t.name
             self.left = self.persist
             sim.fault("injected_io_error")
             sim.fault("injected_%s_error_%s" % ("loader" if getattr(self, "need_existing", True) else "writer", errno.errorcode.get(self.err, self.err)))
@@ -118,7 +119,9 @@ class LoaderFault(object):
             sim.injected_at = (sim.step, sim.now)
             sim.vtime_cap = sim.now + LIVENESS_BOUND + 10.0
             sim.stop_faults()
-        if path == self.path and self.left > 0:
+        # the hiccup hits ONE item: only the worker that ran into it keeps seeing it (C19 quantifies over a failure at a
+        # single item; a tile that no worker can read kills every worker that touches it, which is a different story)
+        if path == self.path and self.left > 0 and t.name == self.victim:
             self.left -= 1
             raise OSError(self.err, "injected %s while reading %s" % (errno.errorcode.get(self.err, self.err), sim.rel(path)))
 
